@@ -79,6 +79,9 @@ def build_pool(seed: int):
     items.append(("junk_ascii_unbalanced", None, "junk", b"1-0:1.8.0(123", None))
     items.append(("junk_ascii_trailing", None, "junk", b"1-0:1.8.0(123)xyz", None))
     items.append(("junk_empty", None, "junk", b"", None))
+    # the shortest inputs a decoder may accept: an empty array / structure, a list header without elements
+    for tiny in (b"\x01\x00", b"\x02\x00", b"\x02\x01", b"\x02\x01\x0a\x00"):
+        items.append((f"tiny_{tiny.hex()}", None, "junk", tiny, None))
     return items
 
 
@@ -125,6 +128,25 @@ class Oracle:
                 from han.common import DlmsMessage
 
                 msg = DlmsMessage(data)
+                if data and b"!" not in data and (step + pi + len(hist)) % 3 == 0:
+                    # the same block as the data block of a P1 readout object, under a well-formed or a malformed identification line:
+                    # the binary decoders see the block, the P1 decoder sees the readout (identification fields added, or rejected)
+                    from han import dlde
+
+                    ident = (b"/ISk5\\2MT382-1000", b"/lgf5E360", b"/KFM5KAIFA-METER", b"/AB")[(step + pi) % 4]
+                    try:
+                        msg = dlde.DataReadout(ident + b"\r\n" + data + b"!\r\n")
+                    except Exception:
+                        msg = DlmsMessage(data)
+                    if isinstance(msg, dlde.DataReadout) and bytes(msg.payload) == data:
+                        p1res, p1exc, _ = self.budget.call(lambda: dlde.decode_p1_readout(msg), 50_000 + 2_000 * len(data))
+                        acc = {k: v for k, v in acc.items() if k != "P1"}
+                        if p1exc is None and isinstance(p1res, dict):
+                            acc["P1"] = p1res
+                        self.ctx.count("steps_given_as_a_P1_readout_object")
+                        fam = None  # the genuine-message clauses speak about payloads, not about this wrapping
+                    else:
+                        msg = DlmsMessage(data)
                 res, exc, _ = self.budget.call(lambda: dec.decode_message(msg), 50_000 + 2_000 * len(data))
             self.ctx.count("autodecoder_calls_checked")
             if exc is not None:
